@@ -144,6 +144,12 @@ class Slot:
                 a = self.actions[k]
                 a = [int(x) for x in a] if isinstance(a, (list, tuple)) else int(a)
                 act = self.env.action_space.get_action(a)
+                other = getattr(self, "other", None)
+                if self.desc.get("borrow_actions") and other is not None and other.env is not None \
+                        and self.env.flat_actions and other.env.flat_actions and int(other.env.action_space.n) == int(self.env.action_space.n):
+                    # the plan is replayed with the OTHER environment's Action objects (same action list by construction):
+                    # an Action describes what to do, it belongs to no environment
+                    a = other.env.action_space.get_action(a)
                 sm.arm(draw_values(float(act.prob))[self.sides[k]])
                 o, r, d, t, info = self.env.step(a)
                 out = ["step", _canon(np.asarray(o)), float(r), bool(d), bool(t), _canon(info),
@@ -248,6 +254,15 @@ def pairs(tier):
         ("different_layout_tiny_vs_small", {"kind": "shipped", "name": "tiny"}, {"kind": "shipped", "name": "small"}),
         ("different_layout_reversed_services", _yaml_desc(s1), _yaml_desc(rev)),
     ]
+    # the same content with the exploit definitions written in the other order (equal as dictionaries, different
+    # numbering of the flat actions)
+    s1r = copy.deepcopy(s1); s1r["name"] = "iso-a"
+    s1r["exploits"] = dict(reversed(list(s1["exploits"].items())))
+    out.append(("yaml_same_content_other_exploit_order", _yaml_desc(s1), _yaml_desc(s1r)))
+    out.append(("dict_same_content_other_exploit_order", {"kind": "dict", "spec": spec_to_json(s1)}, {"kind": "dict", "spec": spec_to_json(s1r)}))
+    # one environment replays its plan with the Action OBJECTS of the other one (same layout and action list, other rules)
+    out.append(("action_objects_of_the_other_environment", _yaml_desc(s1), {**_yaml_desc(s2), "borrow_actions": True}))
+    out.append(("action_objects_of_the_other_environment_2", {**_yaml_desc(s2), "borrow_actions": True}, _yaml_desc(s1)))
     from .family import api_specs
     two_pub = [x for x in api_specs() if x["name"] == "api-2pub"][0]
     out.append(("one_scenario_object_two_environments", {"kind": "dict", "spec": spec_to_json(two_pub), "share_scenario": "sc1"},
